@@ -275,6 +275,10 @@ BAD_TRANSFORMS = ["base64:x", "join:a:b", "prefix", "tolist", "values:x", "bogus
 
 
 def encode_subject(rng):
+    if rng.chance(1, 8):
+        # escaped dollars inside what is encoded: the encoder sees the escaped spelling, the output unescapes it exactly once
+        d = rng.pick(["$$x", "a$$b", "$$$$y", "$$", "$$pod", "p$$$$q"])
+        return rng.pick([d, [d, "b"], {"x": d}, {"k": [d, 1]}, [d], {"x": d, "y": "plain"}])
     k = rng.below(8)
     if k == 0:
         return rng.pick(["s", 1, True, F("0.5"), "", "é", "a b"])
